@@ -12,12 +12,22 @@ import (
 	"github.com/orda-io/orda/server/schema"
 	"github.com/orda-io/orda/server/snapshot"
 	"github.com/orda-io/orda/server/utils"
+	"google.golang.org/grpc/codes"
+	"google.golang.org/grpc/status"
 )
 
 // PatchDocument patches document datatype
-func (its *OrdaService) PatchDocument(goCtx gocontext.Context, req *model.PatchMessage) (*model.PatchMessage, error) {
+func (its *OrdaService) PatchDocument(goCtx gocontext.Context, req *model.PatchMessage) (ret *model.PatchMessage, retErr error) {
 	ctx := context.NewOrdaContext(goCtx, constants.TagPatch).
 		UpdateCollectionTags(req.Collection, 0)
+	// This runs on the goroutine of the RPC: a panic below (e.g. a stored log that cannot be replayed)
+	// is answered with an error, as the push-pull handler does, instead of taking the server down.
+	defer func() {
+		if r := recover(); r != nil {
+			ctx.L().Errorf("recovered in PatchDocument '%v': %v", req.Key, r)
+			ret, retErr = nil, status.Errorf(codes.Internal, "fail to patch document '%s': %v", req.Key, r)
+		}
+	}()
 	collectionDoc, rpcErr := its.getCollectionDocWithRPCError(ctx, req.Collection)
 	if rpcErr != nil {
 		return nil, rpcErr
